@@ -21,3 +21,32 @@ def build(reg):
                  "MPSConfig.monkeypatch_observables keeps every observable's _base_tag",
                  "Lindblad operators exist only if the noise model has noise types (PulserData, A4)"],
     )
+
+
+# negative controls (thorough tier): (name, file, old text, new text)
+CONTROLS = [('autosave floor off by the boundary',
+  'emu_mps/mps_config.py',
+  'self.autosave_dt > MIN_AUTOSAVE_DT',
+  'self.autosave_dt >= MIN_AUTOSAVE_DT'),
+ ('Krylov floor a decade lower',
+  'emu_mps/mps_config.py',
+  'MIN_KRYLOV_TOL = 1.0e-12',
+  'MIN_KRYLOV_TOL = 1.0e-13'),
+ ('reordering switch ignores the observables',
+  'emu_mps/mps_config.py',
+  '] &= self.check_permutable_observables()',
+  '] &= True'),
+ ('DMRG checks the configured instead of the used noise model',
+  'emu_mps/mps_backend.py',
+  'and pulser_data.noise_model.noise_types != ()',
+  'and self._config.noise_model.noise_types != ()'),
+ ('noisy TDVP before DMRG (the repaired defect)',
+  'emu_mps/mps_backend_impl.py',
+  '    if config.solver == Solver.DMRG:\n'
+  '        return DMRGBackendImpl(config, data)\n'
+  '    if data.lindblad_ops:\n'
+  '        return NoisyMPSBackendImpl(config, data)',
+  '    if data.lindblad_ops:\n'
+  '        return NoisyMPSBackendImpl(config, data)\n'
+  '    if config.solver == Solver.DMRG:\n'
+  '        return DMRGBackendImpl(config, data)')]
